@@ -248,3 +248,218 @@ Example adjacent_ranges :
   option_map (map x_key) (match add_setup_except entries items with Ok o => Some o | Err _ => None end)
   = Some [1; 4; 5; 9; 10; 12; 13; 14; 17; 21; 25]%N.
 Proof. vm_compute. auto. Qed.
+
+(* ======================================================================================================== *)
+(* The loops of compute_predecessors / order_nodes (Python `while` loops, modelled with fuel derived from the size
+   of the graph: pred_fuel = log2 (V*V*(E+1)) + 1, order_fuel = log2 (V*(E+1)+1) + 1 binary digits) and the final
+   assertion of order_nodes.  All statements hold for EVERY node list and edge list (duplicates, dangling edges,
+   any size), hence for every graph compute_order hands to order_nodes. *)
+From PV Require Import Blocks.FuelProofs Blocks.TotalProofs.
+
+(* fuel sufficiency: compute_predecessors never returns the fuel code 11; the only exception it can raise is the
+   KeyError of predecessors[node] (10) *)
+Theorem compute_predecessors_fuel_sufficient : forall (nodes : list N) (es : list edge) (c : nat),
+  compute_predecessors nodes es = Err c -> c = 10.
+Proof. exact compute_predecessors_fuel_lemma. Qed.
+Print Assumptions compute_predecessors_fuel_sufficient.
+
+(* exactness: the map has one entry per node, in order; every member of an entry is a node that reaches the key;
+   the entry of every node n (first entry, if the list repeats n) is a strictly increasing list holding exactly the
+   nodes m with m ->* n along the edges; and nothing outside the node list is reachable from it *)
+Theorem compute_predecessors_exact : forall (nodes : list N) (es : list edge) (pm : list (N * list N)),
+  compute_predecessors nodes es = Ok pm ->
+  map fst pm = nodes /\
+  (forall n ps m, In (n, ps) pm -> In m ps -> In m nodes /\ clos_refl_trans N (fun x y => In (x, y) es) m n) /\
+  (forall n, In n nodes -> exists ps, assocN n pm = Some ps /\ StronglySorted N.lt ps /\
+     forall m, In m ps <-> In m nodes /\ clos_refl_trans N (fun x y => In (x, y) es) m n) /\
+  (forall x y, In x nodes -> clos_refl_trans N (fun x y => In (x, y) es) x y -> In y nodes).
+Proof. exact compute_predecessors_exact_lemma. Qed.
+Print Assumptions compute_predecessors_exact.
+
+(* it raises nothing when no edge leaves the node list *)
+Theorem compute_predecessors_total : forall (nodes : list N) (es : list edge),
+  (forall x y, In (x, y) es -> In x nodes -> In y nodes) -> exists pm, compute_predecessors nodes es = Ok pm.
+Proof. exact compute_predecessors_total_lemma. Qed.
+Print Assumptions compute_predecessors_total.
+
+(* order_nodes, for any priority function that picks a queued node: the fuel codes 11 / 15, the KeyError 13 of
+   predecessor_map[root] and - the point - the final assertion `len(set(order) | dead) == len(set(nodes))` (14)
+   are impossible; only the KeyErrors of predecessors[node] / predecessor_map[n] (an edge to a block that is not in
+   the list) remain *)
+Theorem order_nodes_assertion_never_fires : forall (pick : queue -> N) (nodes : list N) (es : list edge) (c : nat),
+  pick_ok pick -> order_nodes_gen pick nodes es = Err c -> c = 10 \/ c = 12.
+Proof. exact order_nodes_errors_lemma. Qed.
+Print Assumptions order_nodes_assertion_never_fires.
+
+(* ... and those are impossible when no edge leaves the node list *)
+Theorem order_nodes_total : forall (pick : queue -> N) (nodes : list N) (es : list edge),
+  pick_ok pick -> (forall x y, In (x, y) es -> In x nodes -> In y nodes) ->
+  exists order, order_nodes_gen pick nodes es = Ok order.
+Proof. exact order_nodes_total_lemma. Qed.
+Print Assumptions order_nodes_total.
+
+(* SEND-free well-formed code: every edge compute_order creates ends at a block of the list, so the whole of
+   compute_order (split, connect, compute_predecessors, order_nodes incl. its assertion) raises nothing *)
+Theorem plain_compute_order_total : forall (pick : queue -> N) (v312 : bool) (ops : list instr),
+  pick_ok pick -> wf_opsb ops = true -> anext_okb ops = true -> plainb ops = true ->
+  exists r, compute_order_gen pick v312 ops = Ok r.
+Proof. exact plain_compute_order_total_lemma. Qed.
+Print Assumptions plain_compute_order_total.
+
+(* non-vacuity: a graph with a cycle, a dead node (3), a duplicate edge and an edge leaving the node list from the dead
+   part only; the fuel 2^d really is small (d = 7 for 4 nodes / 6 edges) and is enough *)
+Example predecessors_example :
+  compute_predecessors [0; 1; 2; 3]%N [(0, 1); (1, 2); (2, 1); (1, 2); (3, 2)]%N
+  = Ok [(0, [0]); (1, [0; 1; 2; 3]); (2, [0; 1; 2; 3]); (3, [3])]%N /\
+  pred_fuel [0; 1; 2; 3]%N [(0, 1); (1, 2); (2, 1); (1, 2); (3, 2)]%N = 7 /\
+  order_nodes [0; 1; 2; 3]%N [(0, 1); (1, 2); (2, 1); (1, 2); (3, 2)]%N = Ok [0; 1; 2]%N /\
+  order_nodes [0; 1]%N [(0, 1); (1, 7)]%N = Err 10.
+Proof. vm_compute. auto. Qed.
+
+(* ======================================================================================================== *)
+(* blocks.add_pop_block_targets (Blocks/Apbt.v): the block-stack walk that sets Opcode.block_target.
+   [pxb] is the set of positions whose opcode has push_exc_block set. *)
+From PV Require Import Blocks.Apbt Blocks.ApbtProofs.
+
+(* termination: the while loop needs at most 2 * len(bytecode) + 1 iterations (fuel = that many in binary digits + 1);
+   the fuel code 40 is never returned, for any list and any marks *)
+Theorem apbt_fuel_sufficient : forall (ops : list instr) (pxb : list N),
+  add_pop_block_targets ops pxb <> Err 40.
+Proof. exact apbt_fuel_lemma. Qed.
+Print Assumptions apbt_fuel_sufficient.
+
+(* whenever it returns: only block_target fields change, and every block_target it sets is the jump target of a
+   block-pushing opcode of the list (SETUP_FINALLY / SETUP_EXCEPT_311 / any PUSHES_BLOCK opcode: the op that was on
+   top of the block stack, the innermost handler, or the enclosing SETUP_LOOP) *)
+Theorem apbt_block_targets : forall (ops : list instr) (pxb : list N) (ops' : list instr),
+  add_pop_block_targets ops pxb = Ok ops' ->
+  length ops' = length ops /\
+  forall k o', nth_error ops' k = Some o' ->
+    exists o, nth_error ops k = Some o /\ o' = set_bt o (block_target o') /\
+      forall t, block_target o' = Some t ->
+        exists s, In s ops /\ (is_setup_except s || pushes_block s) = true /\ target s = Some t.
+Proof. exact apbt_targets_lemma. Qed.
+Print Assumptions apbt_block_targets.
+
+(* hence the list handed to compute_order is well-formed whenever the list handed to add_pop_block_targets is: the
+   two block_target clauses of wf_ops (an opcode of the list; a jump target) are proved, no longer only monitored *)
+Theorem apbt_preserves_wf_ops : forall (ops : list instr) (pxb : list N) (ops' : list instr),
+  wf_opsb ops = true -> add_pop_block_targets ops pxb = Ok ops' -> wf_opsb ops' = true.
+Proof. exact apbt_wf_lemma. Qed.
+Print Assumptions apbt_preserves_wf_ops.
+
+(* ... and so every block_target starts a block after splitting (SEND-free code), composing with targets_start_blocks *)
+Theorem block_targets_start_blocks : forall (pick : queue -> N) (v312 : bool) (ops : list instr) (pxb : list N)
+    (ops' : list instr) (r : ordered),
+  wf_opsb ops = true -> add_pop_block_targets ops pxb = Ok ops' ->
+  anext_okb ops' = true -> plainb ops' = true -> compute_order_gen pick v312 ops' = Ok r ->
+  forall o t, In o ops' -> block_target o = Some t ->
+  exists b ot c, In b (r_blocks r) /\ nth_error ops' (N.to_nat t) = Some ot /\
+                 code b = ot :: c /\ bid b = t /\ idx ot = t.
+Proof. exact block_targets_start_blocks_lemma. Qed.
+Print Assumptions block_targets_start_blocks.
+
+(* properly bracketed input (apbt_okb, evaluated on every real list): reading the list left to right SETUP_EXCEPT_311
+   and POP_BLOCK alternate (brk_ops - the list-level form of exception_ops_nested); no BREAK_LOOP; block-pushing ops
+   have targets; a handler or an UNMARKED jump target inside a protected range is reached from inside a protected
+   range; a jump marked push_exc_block lands inside a protected range; only a NO_NEXT opcode ends the list.
+   Then no assertion of add_pop_block_targets fires and no attribute of None is taken - in particular POP_BLOCK never
+   finds an empty block stack - and by apbt_block_targets every POP_BLOCK the walk reaches gets the target of the
+   block on top of its stack. *)
+Theorem apbt_total_on_bracketed_input : forall (ops : list instr) (pxb : list N),
+  wf_links ops 0 (length ops) = true ->
+  (forall o t, In o ops -> target o = Some t -> N.to_nat t < length ops) ->
+  apbt_okb ops pxb = true ->
+  exists ops', add_pop_block_targets ops pxb = Ok ops'.
+Proof. exact apbt_total_lemma. Qed.
+Print Assumptions apbt_total_on_bracketed_input.
+
+(* the bracket hypothesis is needed: a POP_BLOCK that is reached with an empty block stack raises *)
+Theorem apbt_needs_bracketing : exists ops,
+  wf_opsb ops = true /\ add_pop_block_targets ops [] = Err 41.
+Proof. exact apbt_needs_bracketing_lemma. Qed.
+Print Assumptions apbt_needs_bracketing.
+
+(* non-vacuity: the loop + try/except example above satisfies the hypotheses, and the model recomputes exactly the
+   block_targets pytype computed for it (the witness carries them) *)
+Example loop_try_except_apbt :
+  apbt_okb loop_try_except [] = true /\
+  add_pop_block_targets loop_try_except [] = Ok loop_try_except /\
+  existsb (fun o => match block_target o with Some _ => true | None => false end) loop_try_except = true.
+Proof. vm_compute. auto. Qed.
+
+(* a marked jump into a protected range pushes the range's SETUP_EXCEPT_311 (found by walking .prev), so the
+   POP_BLOCK at position 4 gets the handler 6 although the SETUP at position 2 is never executed on that path *)
+Example marked_jump_example :
+  let ops := [mkI 0 op_NOP None None None (Some 1%N) None;
+              mkI 1 op_JUMP_FORWARD (Some 3%N) None None (Some 2%N) (Some 0%N);
+              mkI 2 op_SETUP_EXCEPT_311 (Some 6%N) None None (Some 3%N) (Some 1%N);
+              mkI 3 op_NOP None None None (Some 4%N) (Some 2%N);
+              mkI 4 op_POP_BLOCK None None None (Some 5%N) (Some 3%N);
+              mkI 5 op_RETURN_CONST None None None (Some 6%N) (Some 4%N);
+              mkI 6 op_PUSH_EXC_INFO None None None (Some 7%N) (Some 5%N);
+              mkI 7 op_RERAISE None None None None (Some 6%N)] in
+  apbt_okb ops [1%N] = true /\
+  option_map (map block_target) (match add_pop_block_targets ops [1%N] with Ok o => Some o | Err _ => None end)
+  = Some [None; None; None; None; Some 6%N; None; None; None] /\
+  add_pop_block_targets ops [] = Err 41.
+Proof. vm_compute. auto. Qed.
+
+(* ---- composition with the exception-table theorems --------------------------------------------------------- *)
+From PV Require Import Blocks.BracketProofs.
+
+(* every op of the table _add_setup_except returns is an original instruction or a synthetic op whose class matches
+   the class of its key (this is what lets exception_ops_nested, a statement about keys, speak about opcodes) *)
+Theorem exception_ops_shape : forall (items : list xitem) (entries : list exc_entry) (out : list xitem),
+  wf_excb items entries = true -> add_setup_except entries items = Ok out ->
+  forall h, In h out ->
+    ((x_key h mod 4 = 1)%N /\ In h items) \/
+    ((x_key h mod 4 = 0)%N /\ x_opc h = op_SETUP_EXCEPT_311) \/
+    ((x_key h mod 4 = 2)%N /\ x_opc h = op_POP_BLOCK).
+Proof. exact exception_ops_shape_lemma. Qed.
+Print Assumptions exception_ops_shape.
+
+(* exception_ops_nested carried through _make_opcode_list / _add_jump_targets (python_version <> (3, 11): nothing
+   elided): the opcode list built from the output table - by ANY conversion [its] that keeps the class sequence - is
+   bracketed in the sense add_pop_block_targets needs; no original instruction may be a SETUP_EXCEPT_311 / POP_BLOCK
+   (true from 3.11 on, where an exception table exists) *)
+Theorem exception_ops_bracket_the_opcode_list : forall (items : list xitem) (entries : list exc_entry) (out : list xitem)
+    (minor : N) (its : list item) (ops : list instr),
+  wf_excb items entries = true ->
+  (forall h, In h items -> x_opc h <> op_SETUP_EXCEPT_311 /\ x_opc h <> op_POP_BLOCK) ->
+  add_setup_except entries items = Ok out ->
+  minor <> 11%N -> map iopc its = map x_opc out -> build_ops minor its = Ok ops ->
+  brk_ops ops false = true.
+Proof. exact bracket_composition_lemma. Qed.
+Print Assumptions exception_ops_bracket_the_opcode_list.
+
+(* end to end: on such a list add_pop_block_targets raises nothing as soon as the jump / mark clauses hold *)
+Theorem apbt_total_from_exception_table : forall (items : list xitem) (entries : list exc_entry) (out : list xitem)
+    (minor : N) (its : list item) (ops : list instr) (pxb : list N),
+  wf_excb items entries = true ->
+  (forall h, In h items -> x_opc h <> op_SETUP_EXCEPT_311 /\ x_opc h <> op_POP_BLOCK) ->
+  add_setup_except entries items = Ok out ->
+  minor <> 11%N -> map iopc its = map x_opc out -> build_ops minor its = Ok ops ->
+  apbt_ok_from ops ops pxb 0 = true ->
+  exists ops', add_pop_block_targets ops pxb = Ok ops'.
+Proof. exact apbt_total_from_exception_table_lemma. Qed.
+Print Assumptions apbt_total_from_exception_table.
+
+(* non-vacuity: the adjacent-ranges table above, converted item by item, gives a bracketed 11-op list on which the
+   walk returns (no jump is marked) *)
+Example bracket_composition_example :
+  let items := [mkX 1 op_RESUME 1 None; mkX 5 op_NOP 2 None; mkX 9 op_POP_TOP 2 None; mkX 13 op_NOP 3 None;
+                mkX 17 op_PUSH_EXC_INFO 4 None; mkX 21 op_PUSH_EXC_INFO 5 None; mkX 25 op_RERAISE 5 None] in
+  let entries := [mkE 2 4 8 false; mkE 6 6 10 false] in
+  match add_setup_except entries items with
+  | Ok out =>
+    let its := map (fun x => mkItem (x_key x) (x_opc x) None (x_preset x)) out in
+    match build_ops 12 its with
+    | Ok ops => length ops = 11 /\ brk_ops ops false = true /\ apbt_ok_from ops ops [] 0 = true /\
+                option_map (map block_target) (match add_pop_block_targets ops [] with Ok o => Some o | Err _ => None end)
+                = Some [None; None; None; None; Some 8%N; None; None; Some 9%N; None; None; None]
+    | Err _ => False
+    end
+  | Err _ => False
+  end.
+Proof. vm_compute. auto. Qed.
